@@ -134,19 +134,22 @@ Definition name_ok (rq : req) (c : cand) : bool :=
 (* resolve_candidate returned metadata and the name check passed *)
 Definition resolves (rq : req) (c : cand) : bool := readable c && name_ok rq c.
 
-Fixpoint scan (st : settings) (rq : req) (tried : list version) (l : list cand) : option cand :=
+(* how the scan of one pass ends: an answer, the sorted list ran out, or the budget `break` *)
+Inductive scan_result := SFound (c : cand) | SExhausted | SGaveUp.
+
+Fixpoint scan (st : settings) (rq : req) (tried : list version) (l : list cand) : scan_result :=
   match l with
-  | [] => None
+  | [] => SExhausted
   | c :: l' =>
       if skipped st c then scan st rq tried l'
-      else if resolves rq c then Some c
+      else if resolves rq c then SFound c
       else
         let tried' := add_version (ver c) tried in
-        if budget_hit (budget st) tried' then None else scan st rq tried' l'
+        if budget_hit (budget st) tried' then SGaveUp else scan st rq tried' l'
   end.
 
 (* one pass of do_get_candidate with allow_prereleases = allow *)
-Definition attempt (st : settings) (rq : req) (cs : list cand) (allow : bool) : option cand :=
+Definition attempt (st : settings) (rq : req) (cs : list cand) (allow : bool) : scan_result :=
   scan st rq [] (sort_candidates (filter_candidates rq allow cs)).
 
 Definition fallback_cond (rq : req) (cs : list cand) : bool :=
@@ -154,18 +157,21 @@ Definition fallback_cond (rq : req) (cs : list cand) : bool :=
 
 Inductive answer := Found (c : cand) | NoCandidate.
 
-(* do_get_candidate(force_allow_prerelease = force).  The recursive call is made with
-   force = True, whose own guard `not allow_prereleases` is then false: depth <= 2, written
-   out (see do_get_candidate_unfold in the proofs). *)
+Definition gave_up (r : scan_result) : bool := match r with SGaveUp => true | _ => false end.
+
+(* do_get_candidate(force_allow_prerelease = force).  (T1) fallback_requires_not_gave_up: the
+   fallback condition carries `and not gave_up`, gave_up being set by the budget `break`.
+   The recursive call is made with force = True, whose own guard `not allow_prereleases` is
+   then false: depth <= 2, written out (see do_get_candidate_unfold in the proofs). *)
 Definition do_get_candidate (st : settings) (rq : req) (cs : list cand) (force : bool) : answer :=
   let allow := force || allow_pre st in
   match attempt st rq cs allow with
-  | Some c => Found c
-  | None =>
-      if fallback_cond rq cs && negb allow then
+  | SFound c => Found c
+  | r =>
+      if fallback_cond rq cs && negb allow && negb (fallback_requires_not_gave_up && gave_up r) then
         match attempt st rq cs true with
-        | Some c => Found c
-        | None => NoCandidate
+        | SFound c => Found c
+        | _ => NoCandidate
         end
       else NoCandidate
   end.
